@@ -45,6 +45,8 @@ Definition rune_case : Type := Z * bool * (string * string * string).
 Definition check_rune_case (c : rune_case) : bool :=
   let '(r, p, (h1, h2, h3)) := c in
   let ip := fun x => if x =? r then p else true in
+  (* the one fact about IsPrint the codec theorem needs: IsPrint('{') *)
+  (if r =? 123 then p else true) &&
   zlist_eqb (escape ip [r; 123]) (unhex h1) &&
   zlist_eqb (escape ip [r; 97]) (unhex h2) &&
   zlist_eqb (escape ip [r]) (unhex h3).
